@@ -215,6 +215,7 @@ fn truncation_items(tier: Tier) -> Vec<DecCase> {
                             cuts: vec![Cut::Frac(0x8000), Cut::Abs(1), Cut::Abs(253)],
                             methods: vec![codec::Method::Copy, codec::Method::Borrow],
                             drains: vec![],
+                            nudges: vec![],
                         }
                     };
                     items.push(DecCase {
